@@ -16,6 +16,8 @@
 
 #include <sys/mman.h>
 #include <ucontext.h>
+#include <dlfcn.h>
+#include <execinfo.h>
 
 #define GA_MAXREC (1u << 20)
 #define GA_HASH (GA_MAXREC * 2)
@@ -190,6 +192,16 @@ static void ga_crash_handler(int sig, siginfo_t *si, void *uc_)
 	}
 	fprintf(stderr, "VP-CRASH sig=%d addr=%p class=[%s] rip=%p %s\n", sig, addr, cls,
 		uc ? (void *) uc->uc_mcontext.gregs[REG_RIP] : NULL, detail);
+	{
+		Dl_info di;
+		void *rip = uc ? (void *) uc->uc_mcontext.gregs[REG_RIP] : NULL;
+		void *pc[20];
+		if (rip && dladdr(rip, &di) && di.dli_fbase)
+			fprintf(stderr, "VP-CRASH-AT %s+0x%lx (addr2line -f -i -e <binary> 0x%lx)\n", di.dli_fname ? di.dli_fname : "?",
+				(unsigned long) ((char *) rip - (char *) di.dli_fbase), (unsigned long) ((char *) rip - (char *) di.dli_fbase));
+		int n = backtrace(pc, 20);
+		backtrace_symbols_fd(pc, n, 2);
+	}
 	if (ga_crash_extra)
 		ga_crash_extra();
 	vp_dump_threads(stderr);
